@@ -101,7 +101,7 @@ fn main() {
     }
     // E3 properties run under a supervisor so that an abort, a stack overflow or a hang of the
     // subject is a verdict with a replayable case and not a dead harness
-    if (ctx.prop == "C14" || ctx.prop == "C19") && std::env::var("MC_CHILD").is_err() {
+    if ["C14", "C16", "C17", "C19"].contains(&ctx.prop.as_str()) && std::env::var("MC_CHILD").is_err() {
         std::process::exit(supervisor::supervise(&ctx, &args));
     }
     let code = props::run(&ctx);
